@@ -204,6 +204,26 @@ def run_unit(unit, prop, repo, scratch, tier, keep):
     r['generated'] = path
     r['generated_lines'] = gen.count('\n')
     res = verus_run.run(path, rlimit=unit.rlimit, extra=unit.extra_verus_args)
+    r['retries'] = []
+    if not res['tool_errors'] and res['resource'] and not res['failures']:
+        # the solver gave up somewhere and reported no failed obligation: that decides
+        # nothing.  Ask again a few times with other solver settings; a run in which every
+        # obligation is discharged is a proof, a run that names a failed obligation is a
+        # refutation attempt the report can use, anything else stays undecided.
+        ladder = [dict(rlimit=unit.rlimit * 3, multiple_errors=1, extra=[]),
+                  dict(rlimit=unit.rlimit * 3, multiple_errors=1, extra=['--smt-option', 'smt.random_seed=1', '--smt-option', 'sat.random_seed=1']),
+                  dict(rlimit=unit.rlimit * 3, multiple_errors=1, extra=['--smt-option', 'smt.random_seed=2', '--smt-option', 'sat.random_seed=2'])]
+        for cfg in ladder:
+            res2 = verus_run.run(path, rlimit=cfg['rlimit'], extra=list(unit.extra_verus_args) + cfg['extra'],
+                                 multiple_errors=cfg['multiple_errors'])
+            outcome = ('tool-error' if res2['tool_errors'] else 'failed-obligation' if res2['failures']
+                       else 'resource-limit' if res2['resource'] else 'all-discharged')
+            r['retries'].append(dict(cmd=res2['cmd'], outcome=outcome, wall_s=round(res2['wall_s'], 1)))
+            if outcome in ('failed-obligation', 'all-discharged'):
+                res = res2
+                if outcome == 'failed-obligation':
+                    res['resource'] = []      # the named obligation is what is reported
+                break
     r['checker_cmd'] = res['cmd']
     r['verus_version'] = res.get('verus_version')
     r['wall_s'] = res['wall_s']
@@ -487,7 +507,7 @@ def write_evidence(prop, args, units, results, violations, knowns, undecided, se
             rewrites=rewrites,
             bounded=bounded,
             units=[dict(unit=r['unit'], status=r['status'], verified=r.get('verified'), errors=r.get('errors'),
-                        canary=r.get('canary'), wall_s=round(r.get('wall_s', 0), 2)) for r in results],
+                        canary=r.get('canary'), wall_s=round(r.get('wall_s', 0), 2), retries=r.get('retries', [])) for r in results],
             known_findings=[dict(obligation=ob['id'], clause=ob['clause'], what=k.get('what')) for ob, k in knowns],
             undecided=undecided,
             samples=samples or [dict(note='no samples')],
